@@ -362,3 +362,24 @@ Lemma v0_twice_refuted_l :
 Proof.
   intros H. specialize (H witness_twice). vm_compute in H. specialize (H _ eq_refl). discriminate.
 Qed.
+
+(* ---- callback copies: one copy per handler plus the continuing stream *)
+Lemma on_with_stream_handle_spec : forall n h s next given s',
+  store_ok s -> In h (s_open s) -> on_with_stream_handle n h s = (next, given, s') ->
+  store_ok s' /\
+  Permutation (s_open s') (remove_one h (s_open s) ++ given ++ [next]) /\
+  List.length given = n.
+Proof.
+  intros n h s next given s' Hok Hin H. unfold on_with_stream_handle in H. destruct n as [|n].
+  - inversion H; subst next given s'. split; [exact Hok|]. split; [|reflexivity]. simpl.
+    rewrite (remove_one_in_perm h (s_open s) Hin) at 1. apply Permutation_cons_append.
+  - destruct (copy_item h (Z.of_nat (S n + 1)) s) as [cs s1] eqn:E. inversion H; subst next given s'; clear H.
+    destruct (copy_item_spec _ _ _ _ _ Hok Hin E) as (Hok1 & HP & Hlen & _).
+    assert (Hl : List.length cs = (S n + 1)%nat).
+    { rewrite Hlen. unfold copy_len. replace (Z.of_nat (S n + 1) <? 2)%Z with false by (symmetry; apply Z.ltb_ge; lia). lia. }
+    assert (Hne : cs <> []) by (intros ->; simpl in Hl; lia).
+    split; [exact Hok1|]. split.
+    + rewrite HP. apply Permutation_app_head. now rewrite <- app_removelast_last.
+    + pose proof (app_removelast_last h Hne) as Es. apply (f_equal (@List.length handle)) in Es.
+      rewrite app_length in Es. simpl in Es. lia.
+Qed.
